@@ -72,7 +72,7 @@ func init() {
 	register(&Prop{
 		ID:    "C13",
 		Level: "fault_enumeration",
-		Rule: "enumeration of (loop shape, delivery point, delivery kind): 8 interrupt targets (tight loop without calls, range + nested loops, loop calling a function, recursion, loop inside a deferred call, select-default spin, loop in a function with defers, loop calling compiled code) x an interrupt delivered before executed statement k (quick: every statement, every 3rd for targets above 150 statements; thorough: every statement) x kinds {on the evaluating goroutine, from another goroutine, double, from inside a compiled call, with Ctrl+C-enters-debugger answered continue / kill, between evaluations}; " +
+		Rule: "enumeration of (target, delivery point, delivery kind): 10 interrupt targets (tight loop without calls, range + nested loops, loop calling a function, recursion, loop inside a deferred call, select-default spin, loop in a function with defers, loop calling compiled code, a loop run by a closure that another goroutine created, a loop forwarding the results of a compiled two-result function) x an interrupt delivered before executed statement k (quick: every statement, every 3rd for targets above 150 statements; thorough: every statement) x kinds {on the evaluating goroutine, from another goroutine, double, from inside a compiled call, with Ctrl+C-enters-debugger answered continue / kill, between evaluations}; " +
 			"non-trivial = the interrupt was delivered while the evaluation was running; distinct = distinct (target, kind, k, entry)",
 		Runs:      func(tier string) int { return 0 },
 		Enumerate: c13Enumerate,
